@@ -80,8 +80,19 @@ JudgeConcurrentRecover(e) ==
   Tag(e.mismatches = 0, "Inv.RecoveredIsUnique:concurrent") \o
   Tag(e.verifyFailures = 0, "Inv.RecoveredVerifiesUnderGroupKey:concurrent")
 
+(* groups created at the same time in one process, their dealers dealing at the same time: every one of
+   them is a group like any other (one group key, every threshold subset the same valid signature), and
+   the key generation ends (a panic is an outcome) *)
+JudgeConcurrentDkg(e) ==
+  Tag(e.panics = 0, "Inv.KeyGenerationEnds:concurrentDkg") \o
+  Tag(e.errors = 0, "ConcurrentDkg.error") \o
+  Tag(e.gpkDisagree = 0 /\ e.gpkNotSumOfDealerPubs = 0, "Inv.GpkAgree:concurrentDkg") \o
+  Tag(e.verifyFailures = 0, "Inv.RecoveredVerifiesUnderGroupKey:concurrentDkg") \o
+  Tag(e.mismatches = 0, "Inv.RecoveredIsUnique:concurrentDkg")
+
 Judge(e) ==
   CASE e.event = "K"         -> JudgeK(e)
+    [] e.event = "ConcurrentDkg" -> JudgeConcurrentDkg(e)
     [] e.event = "ConcurrentRecover" -> JudgeConcurrentRecover(e)
     [] e.event = "Redeal"    -> JudgeRedeal(e)
     [] e.event = "IdFacts"   -> JudgeIdFacts(e)
